@@ -22,7 +22,7 @@ def configs(tier):
             [(32, n, nm) for n in (1, 2, 4, 8, 16, 32, 64, 256) for nm in (1, 3)] + [(32, 1024, 1), (32, 8, 291)] +
             [(64, n, nm) for n in (1, 2, 4, 8, 16, 64, 256) for nm in (1, 2)] + [(64, 1024, 1), (64, 8, 1000)])
 
-def build(cfgs, backends, name="h_ntt", src="h_ntt.cpp", opt="-O1"):
+def build(cfgs, backends, name="h_ntt", src="h_ntt.cpp", opt="-O1", extra=(), suffix=""):
     jobs, keys = [], []
     hdir = os.path.join(vf.BUILD, "harness"); os.makedirs(hdir, exist_ok=True)
     for b in backends:
@@ -33,8 +33,8 @@ def build(cfgs, backends, name="h_ntt", src="h_ntt.cpp", opt="-O1"):
             if not ch: continue
             hp = os.path.join(hdir, "%s_cfg_%s_%d.h" % (name, b, ci))
             open(hp, "w").write("#define CONFIGS " + " ".join("X(%s,%d,%d)" % (TN[w], n, nm) for w, n, nm in ch) + "\n")
-            jobs.append(dict(name=name, srcs=[src], backend=b, out_name="%s_%s_%d" % (name, b, ci), extra=["-w", '-DNTT_CFG_H="%s"' % hp], opt=opt))
-            keys.append((b, ci, ch))
+            jobs.append(dict(name=name, srcs=[src], backend=b, out_name="%s_%s%s_%d" % (name, b, suffix, ci), extra=["-w", '-DNTT_CFG_H="%s"' % hp] + list(extra), opt=opt))
+            keys.append((b + suffix, ci, ch))
     res = vf.build_many(jobs)
     out = {}   # (backend, cfg) -> exe
     errs = []
@@ -101,8 +101,8 @@ def run_cases(ck, cases, exes, model, family="ntt", timeout=1800):
             continue
         for i, il in zip(idxs, ilines):
             nrun += 1
-            m, s = [x.strip() for x in mlines[i].split("#")]
-            il = il.strip()
+            m, s = [" ".join(x.split()) for x in mlines[i].split("#")]
+            il = " ".join(il.split())
             stream, cfg, line = cases[i]
             if "?" not in s and il != s:
                 fails.append((b, stream, line, il, m, s))
